@@ -107,3 +107,88 @@ def symmetries(cx, plane, what):
     cx.prove_eq("rotation_invariant", rot, base, tol=1e-9)
     sc = cx.real("scale", 0.5, 2.0)
     cx.prove_eq("fourth_power", pathway_prefactor(cx, e, [sc * v for v in d]), sc ** 4 * base, tol=1e-9)
+
+
+def _pathway_sums(cx, energies, dips, mult):
+    """real Aggregate.build/diagonalize/liouville_pathways_3T with symbolic site dipoles, concrete
+    site energies, zero coupling, waiting time 0 (identity evolution), all-parallel polarisations;
+    returns {(type, w1, w3): sum of prefactors}"""
+    import quantarhei as qr
+    from quantarhei.utils.vectors import X
+    n = len(energies)
+    with cx.concrete():
+        mols = []
+        for e in energies:
+            m = qr.Molecule(elenergies=[0.0, e])
+            m.set_dipole(0, 1, [1.0, 0.0, 0.0])
+            mols.append(m)
+        agg = qr.Aggregate(molecules=mols)
+        if n > 1:
+            agg.init_coupling_matrix()
+    for m, d in zip(mols, dips):
+        dm = numpy.zeros((2, 2, 3)) if not cx.sym else __import__("symnum").core.zeros((2, 2, 3))
+        dm[0, 1, :] = d
+        dm[1, 0, :] = d
+        m.dmoments = dm
+    agg.build(mult=mult)
+    agg.diagonalize()
+    # tolerance filters: the largest dipole strength only scales the threshold; generic dipoles
+    agg.D2_max = 1.0
+    N = agg.Ntot
+    with cx.concrete():
+        U = qr.qm.SuperOperator(dim=N)
+        for i in range(N):
+            for j in range(N):
+                U.data[i, j, i, j] = 1.0
+        lab = qr.LabSetup()
+        lab.set_pulse_polarizations(pulse_polarizations=(X, X, X), detection_polarization=X)
+    types = ("R1g", "R2g", "R3g", "R4g", "R1f*", "R2f*") if mult > 1 and n > 1 else ("R1g", "R2g", "R3g", "R4g")
+    pws = agg.liouville_pathways_3T(ptype=types, eUt=U, ham=agg.get_Hamiltonian(), t2=0.0, lab=lab)
+    sums = {}
+    for p in pws:
+        noe = 1 + p.order + p.relax_order
+        key = (p.pathway_type, round(float(p.frequency[0]), 6), round(float(p.frequency[noe - 2]), 6))
+        sums[key] = sums.get(key, 0) + p.pref
+    return sums, len(pws)
+
+
+@harness("C12", "uncoupled_additivity",
+         quick=[dict(energies=[1.0, 1.2])], thorough=[dict(energies=[1.0, 1.2]), dict(energies=[1.0, 1.15, 1.3])],
+         functions=["quantarhei/builders/aggregate_spectroscopy.py:liouville_pathways_3T",
+                    "quantarhei/builders/aggregate_spectroscopy.py:generate_R1g",
+                    "quantarhei/builders/aggregate_spectroscopy.py:generate_R2g",
+                    "quantarhei/builders/aggregate_spectroscopy.py:generate_R3g",
+                    "quantarhei/builders/aggregate_spectroscopy.py:generate_R4g",
+                    "quantarhei/builders/aggregate_spectroscopy.py:generate_R1f",
+                    "quantarhei/builders/aggregate_spectroscopy.py:generate_R2f",
+                    F_DIA + ":liouville_pathway.add_transition", F_DIA + ":liouville_pathway.build",
+                    F_DIA + ":liouville_pathway.orientational_averaging",
+                    "quantarhei/builders/aggregate_base.py:AggregateBase.build"],
+         bound="uncoupled dimer (thorough trimer) with two-exciton states, concrete distinct site energies, "
+               "arbitrary (generic: above the tolerance filter) site dipole vectors, waiting time 0, all-parallel "
+               "polarisations: summed pathway prefactors at every cross-peak position vanish (ESA cancels GSB+SE), "
+               "and at every diagonal position equal those of the molecule taken alone, separately for the "
+               "rephasing and non-rephasing signals",
+         out="line shapes, non-zero waiting times, coupled aggregates, other polarisation sequences")
+def uncoupled_additivity(cx, energies):
+    n = len(energies)
+    dips = [cx.real_array("d%d" % i, 3) for i in range(n)]
+    for d in dips:
+        cx.assume(numpy.dot(d, d) > 0.01, "generic dipoles: |d|^2 above the tolerance filter")
+        cx.assume(numpy.dot(d, d) < 100.0)
+    sums, npw = _pathway_sums(cx, energies, dips, 2)
+    cx.prove("pathways_generated", npw > 0)
+    mono = {}
+    for i, (e, d) in enumerate(zip(energies, dips)):
+        s1, _ = _pathway_sums(cx, [e], [d], 1)
+        mono.update(s1)
+    for key, val in sorted(sums.items()):
+        typ, w1, w3 = key
+        if abs(abs(w1) - abs(w3)) > 1e-9:
+            cx.prove_eq("cross_peak_cancels%s" % (key,), val, 0, tol=1e-9)
+        else:
+            cx.prove("diagonal_peak_known%s" % (key,), key in mono)
+            if key in mono:
+                cx.prove_eq("diagonal_peak_is_monomer%s" % (key,), val, mono[key], tol=1e-9)
+    for key in mono:
+        cx.prove("monomer_peak_present%s" % (key,), key in sums)
